@@ -31,6 +31,8 @@ pub enum Op {
     Clean,
     /// advance the clock by whole seconds
     Adv { secs: u64 },
+    /// a successful access-list reload: the list in force becomes `list` (torrent indices)
+    SetList { list: Vec<u8> },
 }
 
 #[derive(Clone, Debug, Serialize, Deserialize)]
@@ -82,6 +84,24 @@ pub fn canon_ip(ip: IpAddr) -> IpAddr {
 }
 
 pub fn peer_id(p: u8) -> [u8; 20] {
+    if p >= 200 {
+        // odd and boundary-shaped peer ids (client detection must cope with all of them)
+        let odd: [&[u8]; 14] = [
+            b"M123456-", b"M12345--", b"M1-2-3--", b"M1-23-4-", b"M-------", b"-TR", b"-\xff\xff3000-", b"S58B-----", b"-UT355W-",
+            b"Q1-10-0-", b"exbc\x00\x01", b"-qB4.5.0-", b"--------", b"M999999-",
+        ];
+        let mut id = match p {
+            254 => [0u8; 20],
+            255 => [0xffu8; 20],
+            _ => [b'x'; 20],
+        };
+        if p < 254 {
+            let o = odd[(p - 200) as usize % odd.len()];
+            id[..o.len()].copy_from_slice(o);
+            id[19] = p;
+        }
+        return id;
+    }
     let prefixes: [&[u8; 8]; 4] = [b"-TR3000-", b"-qB4250-", b"-UT3550-", b"-DE2110-"];
     let mut id = [b'0'; 20];
     id[..8].copy_from_slice(prefixes[(p % 4) as usize]);
@@ -127,6 +147,10 @@ impl UdpStore {
         }
         let stop_w = if prop == "C20" { 250 } else { 200 };
         while ops.len() < n_ops {
+            if r.chance(25) {
+                ops.push(Op::SetList { list: (0..r.below(5)).map(|_| r.below(8) as u8).collect() });
+                continue;
+            }
             let k = r.weighted(&[62, 12, 10, 16]);
             match k {
                 0 => {
@@ -222,6 +246,7 @@ struct Exec<'a> {
     saw_removal: bool,
     saw_nonempty_announce: bool,
     txid: i32,
+    list: Vec<u8>,
 }
 
 fn fold(h: &mut u64, x: u64) {
@@ -234,7 +259,7 @@ impl<'a> Exec<'a> {
     }
 
     fn allowed(&self, ih: &[u8; 20]) -> bool {
-        let listed = self.scn.access_list.iter().any(|t| info_hash(*t) == *ih);
+        let listed = self.list.iter().any(|t| info_hash(*t) == *ih);
         match self.scn.access_mode {
             1 => listed,
             2 => !listed,
@@ -451,7 +476,14 @@ impl<'a> Exec<'a> {
         self.txid = self.txid.wrapping_add(1);
         let req = ScrapeRequest { connection_id: ConnectionId::new(0), transaction_id: TransactionId::new(self.txid), info_hashes: ts.iter().map(|t| InfoHash(info_hash(*t))).collect() };
         let src = CanonicalSocketAddr::new(SocketAddr::new(raw_ip, 5000));
-        let resp = self.maps.scrape(req, src);
+        let maps = self.maps.clone();
+        let resp = match catch(move || maps.scrape(req, src)) {
+            Ok(r) => r,
+            Err(msg) => {
+                self.fail(&["C12", "C01"], "scrape-panic", "scrape-panic", format!("TorrentMaps::scrape panicked: {}", msg));
+                return;
+            }
+        };
         stats.evaluations += 1;
         if resp.torrent_stats.len() != ts.len() {
             self.fail(&["C01", "C06"], "scrape-length", "scrape-length", format!("scrape of {} hashes answered with {} entries", ts.len(), resp.torrent_stats.len()));
@@ -512,8 +544,11 @@ impl<'a> Exec<'a> {
             return;
         }
         stats.evaluations += 1;
-        let allowed_list: Vec<[u8; 20]> = self.scn.access_list.iter().map(|t| info_hash(*t)).collect();
+        let allowed_list: Vec<[u8; 20]> = self.list.iter().map(|t| info_hash(*t)).collect();
         let mode = self.scn.access_mode;
+        if self.model.torrents.keys().any(|(_, ih)| !self.allowed(ih)) {
+            stats.probe("clean-with-stored-forbidden-torrent");
+        }
         let allowed = move |ih: &[u8; 20]| match mode {
             1 => allowed_list.contains(ih),
             2 => !allowed_list.contains(ih),
@@ -645,6 +680,7 @@ impl Harness for UdpStore {
             saw_removal: false,
             saw_nonempty_announce: false,
             txid: 0,
+            list: scn.access_list.clone(),
         };
         for op in &scn.ops {
             if !ex.violations.is_empty() {
@@ -664,6 +700,17 @@ impl Harness for UdpStore {
                 Op::Adv { secs } => {
                     let n = time::manual_ns() / 1_000_000_000 + secs;
                     time::set_manual_secs(n.min(u32::MAX as u64 - 10));
+                }
+                Op::SetList { list } => {
+                    if scn.access_mode != 0 {
+                        let mut l = AccessList::default();
+                        for t in list {
+                            let hex: String = info_hash(*t).iter().map(|b| format!("{:02x}", b)).collect();
+                            l.insert_from_line(&hex).unwrap();
+                        }
+                        ex.access.store(Arc::new(l));
+                        ex.list = list.clone();
+                    }
                 }
             }
             stats.states.insert(ex.model.state_hash());
